@@ -196,8 +196,14 @@ class _G:
                 return "-%d" % -v
             return "%dull" % v if v > 2**63 - 1 else "%d" % v
         if k < 7 and self.enumerators:
+            en = self.pick(self.enumerators)
+            if not cc.fits(self.enum_values[en], tn):
+                if "init:out-of-range" in self.cfg.avoid:
+                    self.avoided.add("init:out-of-range")
+                    return "3"
+                self.feat("init:out-of-range")
             self.feat("init:enumerator")
-            return self.pick(self.enumerators)
+            return en
         if k < 8:
             self.feat("init:char-constant")
             return self.pick(["'a'", "'Z'", "'0'", "'\\n'", "'\\0'", "'\\2'"])
